@@ -171,6 +171,11 @@ def parse_unit(path):
             u.sigs[q] = nm
         elif d == "@external":
             u.external[rest.strip()] = True
+        elif d == "@lift":
+            # @lift Qual::fn async_block => <call expression> ;; <signature of the lifted fn>
+            q, rest2 = rest.split(None, 1)
+            call, sigtxt = [x.strip() for x in rest2.split(";;")]
+            u.no_unwind.append((q, call, sigtxt))
         elif d == "@implheader":
             ty, hdr = rest.split(None, 1)
             u.cover[ty] = hdr
@@ -511,7 +516,7 @@ class Rewriter:
             text = text[:mt.start()] + text[e:]
 
     def r3_pin(self, scope, text):
-        for rx, new in ((r"\bself\.get_mut\(\)", "self"), (r"Pin::new\(&mut\s+([\w.]+)\)", r"\1"),(r"\bmut\s+self\s*:\s*Pin<&mut Self>", "&mut self"), (r"\bself\s*:\s*Pin<&mut Self>", "&mut self"),
+        for rx, new in ((r"\bself\.get_mut\(\)", "self"), (r"Pin::new\(&mut\s+\*?([\w.]+)\)", r"\1"), (r"Pin::new\(([\w.]+)\)", r"\1"),(r"\bmut\s+self\s*:\s*Pin<&mut Self>", "&mut self"), (r"\bself\s*:\s*Pin<&mut Self>", "&mut self"),
                         (r"\bself\s*:\s*Pin<&mut\s+Self>", "&mut self")):
             for mt in list(re.finditer(rx, text)):
                 self.note("R3", scope, mt.group(0), new)
@@ -1016,6 +1021,22 @@ def self_emit_fn(em, res, u, rw, qual, sig, body, orig, rel, self_subst, mode, d
         rw.note("R21", qual, "mut self", "self + `let mut self__ = self;` (body occurrences renamed)")
     rname = u.sigs.get(qual, "r")
     sig_new = _name_result(sig, rname)
+    # ---- R9b: lift the (single) `async move { .. }` block of this fn into a separate fn ----
+    lifted = None
+    for (lq, call, sigtxt) in u.no_unwind:
+        if lq != qual:
+            continue
+        bm0 = rl.mask(body)
+        mt = re.search(r"\basync\s+move\s*\{", bm0)
+        if not mt or len(re.findall(r"\basync\s+move\s*\{", bm0)) != 1:
+            raise Undecided("@lift %s: expected exactly one `async move {` block" % qual)
+        bo = bm0.index("{", mt.start())
+        bc = rl.match_close(bm0, bo)
+        blk = body[bo:bc + 1]
+        body = body[:mt.start()] + call + body[bc + 1:]
+        lname = re.search(r"fn\s+(\w+)", sigtxt).group(1)
+        lifted = (lname, sigtxt, blk)
+        rw.note("R9b", qual, "async move { ... }", "%s  (block lifted verbatim into fn %s)" % (call, lname))
     # ---- body ----
     new_body = rw.apply(qual, body)
     bm = rl.mask(new_body)
@@ -1112,6 +1133,14 @@ def self_emit_fn(em, res, u, rw, qual, sig, body, orig, rel, self_subst, mode, d
     end_line = len(em.lines)
     res.fn_lines[qual] = (start_line, end_line)
     diffs.append((rel, qual, orig, "\n".join(em.lines[start_line - 1:end_line])))
+    if lifted is not None:
+        lname, sigtxt, blk = lifted
+        lq2 = qual.rsplit("::", 1)[0] + "::" + lname if "::" in qual else lname
+        saved = u.no_unwind
+        u.no_unwind = []
+        self_emit_fn(em, res, u, rw, lq2, sigtxt, blk, blk, rel, {}, mode, diffs, indent, vis="pub ")
+        u.no_unwind = saved
+        res.fn_src[lq2] = res.fn_src.get(qual, (rel, 0, 0))
 
 
 def _indent(t, ind):
